@@ -93,7 +93,7 @@ CHECKS["C19"] = dict(
 )
 
 CHECKS["C01"] = dict(
-    text="Totality and time bound under a simulated environment: the root document (token soup, damaged and torn sheets, nesting sweeps to depth 100; text or decodable bytes with or without BOM / @charset) is parsed through every default entry point with seeded parser options while a simulated fetcher serves an import graph (tree, DAG, cycle, self-import) with faults (None, (None, None), torn documents, undecodable bytes, text instead of bytes); the pipeline parse -> serialise in raise mode -> serialise in log mode -> reparse -> serialise must not raise anything, must stay inside a tick budget measured by a deterministic clock (entries into functions of the tree under test), and the number of fetches must stay bounded by the import edges.",
+    text="Totality and time bound under a simulated environment: the root document (token soup, damaged and torn sheets, nesting sweeps to depth 400 and - past the interpreter's recursion limit - to 1500, one token repeated up to 200 times inside a possibly unclosed context, @charset rules naming every kind of codec; text or decodable bytes with or without BOM / @charset) is parsed through every default entry point with seeded parser options while a simulated fetcher serves an import graph (tree, DAG, cycle, self-import) with faults (None, (None, None), torn documents, undecodable bytes, text instead of bytes); the pipeline parse -> serialise in raise mode -> serialise in log mode -> reparse -> serialise must not raise anything, must stay inside a tick budget measured by a deterministic clock (entries into functions of the tree under test), and the number of fetches must stay bounded by the import edges.",
     note="The fetcher / cycle / torn-document clauses and the time bound are decided by simulation; the token x state x nesting product is reached through generated content (input generation, labelled as such). Loops inside C code are only covered by the parent's wall-clock watchdog. Sampling, not proof.",
     technique="deterministic simulation with fault injection: seeded fetch-fault and cycle injection under a deterministic tick clock (sys.monitoring), watchdog-backed",
     ref="DESIGN.md 5 C01",
